@@ -929,7 +929,9 @@ header_seek (SF_PRIVATE *psf, sf_count_t position, int whence)
 					while (skip)
 					{	char junk [16 * 1024] ;
 						size_t to_skip = SF_MIN (skip, sizeof (junk)) ;
-						psf_fread (junk, 1, to_skip, psf) ;
+						/* Stop at end of input: a bogus length must not keep us reading nothing forever. */
+						if ((size_t) psf_fread (junk, 1, to_skip, psf) != to_skip)
+							break ;
 						skip -= to_skip ;
 						}
 					}
